@@ -342,6 +342,20 @@ func (fr *Frame) interceptInvoke(st *State, ifaceName string, iface types.Type, 
 	switch {
 	case ifaceName == "error" && m.Name() == "Error":
 		return Val{T: ex.ctx.UF("err_string", SStr, recv.T)}, true
+	case ifaceName == "Writer" && iface.String() == "io.Writer" && m.Name() == "Write" && len(args) == 1 && args[0].T != nil && args[0].T.Sort == SSlc:
+		// an output sink outside the verified code: what is handed to it is recorded in the ghost logs "written" (the
+		// slice) and "writtento" (the sink); it does not touch the modelled state, its results are arbitrary
+		ex.trusted["io.Writer.Write on a sink outside the verified code: records the write in a ghost log, no effect on modelled state, returns arbitrary (n, err)"] = true
+		if ex.ghost == 0 {
+			nc := "LogN_written"
+			n := ex.get(st, nc, SInt)
+			ex.set(st, "Log_written", Store(ex.get(st, "Log_written", ArraySort(SInt, SSlc)), n, args[0].T))
+			ex.set(st, "Log_writtento", Store(ex.get(st, "Log_writtento", ArraySort(SInt, SIfc)), n, recv.T))
+			ex.set(st, nc, Add(n, IntLit(1)))
+		}
+		nres := ex.ctx.Fresh("write.n", SInt)
+		eres := ex.ctx.Fresh("write.err", SIfc)
+		return Val{Tup: []Val{{T: nres}, {T: eres}}}, true
 	}
 	return Val{}, false
 }
